@@ -423,6 +423,8 @@ class Calls:
         ctype = n.get('ctorType', {}).get('qualType', '')
         if n.get('elidable') and len(args) == 1:
             return self._val(ex, args[0])
+        if t.strip().startswith('(lambda at') or '(lambda at' in t:
+            return self._val(ex, args[0]) if args else Opaque('lambda')
         m = prelude.ctor_model(ex, t, sh, ctype)
         if m is not None:
             return m(ex, t, sh, ctype, args, n)
